@@ -319,7 +319,7 @@ impl<T: Sync + Send + 'static> Nucleo<T> {
         num_threads: Option<usize>,
         columns: u32,
     ) -> Self {
-        let (pool, worker) = Worker::new(num_threads, config, notify.clone(), columns);
+        let (pool, worker) = Worker::new(num_threads, config, columns);
         Self {
             canceled: worker.canceled.clone(),
             should_notify: worker.should_notify.clone(),
@@ -408,16 +408,28 @@ impl<T: Sync + Send + 'static> Nucleo<T> {
             self.canceled.store(true, atomic::Ordering::Relaxed);
             self.worker.lock_arc()
         } else {
-            let Some(worker) = self.worker.try_lock_arc_for(Duration::from_millis(timeout)) else {
-                #[cfg(nucleo_verif)]
-                crate::verif::point("tick.lock_failed");
-                self.should_notify.store(true, Ordering::Release);
-                return Status {
-                    changed: false,
-                    running: true,
-                };
-            };
-            worker
+            match self.worker.try_lock_arc_for(Duration::from_millis(timeout)) {
+                Some(worker) => worker,
+                None => {
+                    #[cfg(nucleo_verif)]
+                    crate::verif::point("tick.lock_failed");
+                    // ask the worker to notify us once it is done
+                    self.should_notify.store(true, Ordering::SeqCst);
+                    atomic::fence(Ordering::SeqCst);
+                    // the worker may have finished (and looked at the flag) between the
+                    // failed lock attempt and the store above, in that case nobody is
+                    // going to notify us so look again
+                    match self.worker.try_lock_arc() {
+                        Some(worker) => worker,
+                        None => {
+                            return Status {
+                                changed: false,
+                                running: true,
+                            }
+                        }
+                    }
+                }
+            }
         };
 
         #[cfg(nucleo_verif)]
@@ -446,8 +458,19 @@ impl<T: Sync + Send + 'static> Nucleo<T> {
             }
             #[cfg(nucleo_verif)]
             crate::verif::point("tick.spawn");
-            self.pool
-                .spawn(move || unsafe { inner.run(status, cleared) })
+            let should_notify = self.should_notify.clone();
+            let notify = self.notify.clone();
+            self.pool.spawn(move || {
+                unsafe { inner.run(status, cleared) };
+                let was_canceled = inner.was_canceled;
+                // release the worker before notifying so that a tick triggered by the
+                // notification is able to lock it and pick up the results
+                drop(inner);
+                atomic::fence(Ordering::SeqCst);
+                if !was_canceled && should_notify.load(Ordering::SeqCst) {
+                    notify()
+                }
+            })
         }
         Status { changed, running }
     }
